@@ -387,31 +387,36 @@ def r3_5(ctx: Ctx) -> RuleResult:
     return r4_1(ctx, "R3.5")
 
 
-def r3_6(ctx: Ctx) -> RuleResult:
+def r3_6(ctx: Ctx, rule: str = "R3.6", owner: str = "jsonpath.pointer.JSONPointer") -> RuleResult:
     """`JSONPointer(str(p))` is p again only if parsing with the *default* options neither rewrites a token nor
     refuses one that `str()` can print.  Two constructs decide that: the default of `unicode_escape` (decoding
     `\\uXXXX` sequences that are part of a member name) and what `_index` does with a canonical integer token outside
     the index limits (refusing it makes a member with such a name unaddressable by its own printed pointer)."""
     from .common import path_conditions
 
-    rr = RuleResult("R3.6", "the printed pointer parses back with the default options", floor=2)
+    rr = RuleResult(rule, "the printed pointer parses back with the default options", floor=2)
     cls = ctx.repo.require_class("jsonpath.pointer.JSONPointer")
-    init = cls.methods.get("__init__")
+    ocls = ctx.repo.require_class(owner)
+    init = ocls.methods.get("__init__")
     idx = cls.methods.get("_index")
     if init is None or idx is None:
-        raise AnalysisError("R3.6: JSONPointer.__init__ / _index not found")
+        raise AnalysisError(f"{rule}: {ocls.name}.__init__ / JSONPointer._index not found")
     a = init.node.args
     names = [x.arg for x in a.kwonlyargs]
     dflt = a.kw_defaults[names.index("unicode_escape")] if "unicode_escape" in names else None
     if dflt is None:
-        raise AnalysisError("R3.6: JSONPointer.__init__ has no keyword `unicode_escape`")
+        pos = [x.arg for x in a.args]
+        if "unicode_escape" in pos and len(pos) - pos.index("unicode_escape") <= len(a.defaults):
+            dflt = a.defaults[pos.index("unicode_escape") - (len(pos) - len(a.defaults))]
+    if dflt is None:
+        raise AnalysisError(f"{rule}: {ocls.name}.__init__ has no keyword `unicode_escape`")
     escapes_backslash = any(
         isinstance(c, ast.Call) and callee_name(c) == "replace" and c.args and isinstance(c.args[0], ast.Constant) and c.args[0].value == "\\"
         for m in (cls.methods.get("_encode"), cls.methods.get("__str__")) if m is not None for c in ast.walk(m.node))
     if isinstance(dflt, ast.Constant) and dflt.value is True and not escapes_backslash:
-        rr.bad(init, init.node, "JSONPointer(...) decodes \\uXXXX sequences by default, and the printed pointer does not protect a "
+        rr.bad(init, init.node, f"{ocls.name}(...) decodes \\uXXXX sequences by default, and the printed pointer does not protect a "
                "backslash: the pointer of a member named `\\u0041` prints as `/\\u0041`, which parses to the member `A`",
-               construct="JSONPointer.__init__: unicode_escape defaults to True")
+               construct=f"{ocls.name}.__init__: unicode_escape defaults to True")
     else:
         rr.ok(init.loc(), "parsing with the default options decodes nothing that str() does not encode")
     refused = []
